@@ -2,6 +2,7 @@ import Restli.Model.Encode
 import Restli.Model.TreeReader
 import Restli.Proofs.NoPanic
 import Restli.Proofs.Patch
+import Restli.Proofs.PathSpecSem
 /-! # C07 — read-only / create-only field exclusion (codec level)
 
 Writer: `WriteMap` consults the exclusion spec once per key, under the scope extended by that
@@ -114,6 +115,31 @@ example : gmatches (newPathSpec [[97, 47, 42, 47, 98]]) [[97], [107], [99]] = .n
 /-- after the repair a directive that is a prefix of another is kept, in either order -/
 example : gmatches (newPathSpec [[97], [97, 47, 98]]) [[97]] = .yes := by rfl
 example : gmatches (newPathSpec [[97, 47, 98], [97]]) [[97]] = .yes := by rfl
+
+/-! ## the matcher against its specification -/
+
+/-- **`NewPathSpec(directives…)` + `genericMatches` decide exactly prefix matching**: for every list
+of directives (any bytes, any number of segments, nested prefixes and duplicates in any order —
+the trie's subsumption rules are invisible) and every non-empty path, the path is excluded iff
+some directive matches a prefix of it segment by segment, `*` standing for any one segment, one
+leading `$set`/`$delete` of the remaining path being passed over at each step -/
+theorem c07_pathspec_is_prefix_match (dirs : List Bytes) (path : List Bytes) (hp : path ≠ []) :
+    (newPathSpec dirs).matchesB path = true ↔ ∃ d ∈ dirs, dirMatches (splitSlash d) path = true := by
+  unfold PathSpec.matchesB
+  rw [beq_iff_eq]
+  exact newPathSpec_sem dirs path hp
+
+/-- for paths that contain no `$set`/`$delete` segment this is plain prefix matching with
+wildcards — the property's definition -/
+theorem c07_pathspec_plain_paths (dirs : List Bytes) (path : List Bytes) (hp : path ≠ [])
+    (hno : ∀ x ∈ path, isOp x = false) :
+    (newPathSpec dirs).matchesB path = true ↔ ∃ d ∈ dirs, prefixMatches (splitSlash d) path = true := by
+  rw [c07_pathspec_is_prefix_match dirs path hp]
+  constructor
+  · rintro ⟨d, hd, h⟩
+    exact ⟨d, hd, by rw [← dirMatches_plain _ _ (splitSlash_ne_nil d) hno]; exact h⟩
+  · rintro ⟨d, hd, h⟩
+    exact ⟨d, hd, by rw [dirMatches_plain _ _ (splitSlash_ne_nil d) hno]; exact h⟩
 
 /-! ## partial updates -/
 
